@@ -542,6 +542,10 @@ def run_case(case):
         elif what == 'cov-negative-variance':
             # variances given as a number (dim 1) or as a 1d list (diagonal matrix): one of them negative
             S = -0.25 if dim == 1 else [0.1 * (i + 1) * (-1 if i == dim - 2 else 1) for i in range(dim)]
+        # call history inside this case: the VALID matrix of the same size (and trace) was accepted just before
+        S_ok = alpha.cov_matrix(dim, True, 'rej')
+        pe.cov_Obs([1.0 + i for i in range(dim)] if dim > 1 else 1.0, S_ok, 'cvok')
+        pe.cov_Obs([1.0 + i for i in range(dim)] if dim > 1 else 1.0, S_ok, 'cvok2') if dim > 1 else None
         # ... without and with the optional gradient argument
         nS = 1 if np.ndim(S) == 0 else len(S)
         for gname, grad in (('no-grad', None), ('grad', [1.0 + 0.5 * i for i in range(nS)]), ('grad-array', np.array([[1.0 - 0.25 * i] for i in range(nS)]))):
